@@ -193,10 +193,6 @@ Fixpoint dedup (l : list nat) : list nat :=
   | x :: tl => if mem x tl then dedup tl else x :: dedup tl
   end.
 
-(* get_undefined_variables: referenced names not bound by a non-star statement of the client *)
-Definition undefined (bs : list binding) (used : list name) : list name :=
-  filter (fun n => negb (existsb (fun b => binds b n) bs)) (dedup used).
-
 Fixpoint insert_nat (x : nat) (l : list nat) : list nat :=
   match l with
   | [] => [x]
@@ -204,8 +200,13 @@ Fixpoint insert_nat (x : nat) (l : list nat) : list nat :=
   end.
 Definition sort_nat (l : list nat) : list nat := fold_right insert_nat [] l.
 
-(* walk the client from its LAST statement: a pending name goes to the last star whose module has
-   it (trace_origin on the client); a star that gets no name is deleted.  Result is reversed. *)
+(* trace_origin on the client for a non-star node: does it bind n (t_match without the star case) *)
+Definition t_binds (b : binding) (n : name) : bool := t_match (fun _ _ => false) n b.
+
+(* Every referenced name is traced in the client (after the repair: not only the undefined ones).
+   Walk the client from its LAST statement: a pending name goes to the last star whose module has
+   it, unless a later non-star statement binds it; a star that gets no name is deleted.  The
+   result is in reversed order, like the input. *)
 Fixpoint expand_rev (has : modname -> name -> bool) (rbs : list binding) (pending : list name)
   : list binding :=
   match rbs with
@@ -214,14 +215,14 @@ Fixpoint expand_rev (has : modname -> name -> bool) (rbs : list binding) (pendin
     let mine := filter (has m) pending in
     let rest := filter (fun n => negb (has m n)) pending in
     rev (map (fun n => From m n n) (sort_nat mine)) ++ expand_rev has tl rest
-  | b :: tl => b :: expand_rev has tl pending
+  | b :: tl => b :: expand_rev has tl (filter (fun n => negb (t_binds b n)) pending)
   end.
 
 Definition has_star (bs : list binding) : bool :=
   existsb (fun b => match b with Star _ => true | _ => false end) bs.
 
 Definition fix_starred (fuel : nat) (g : graph) (bs : list binding) (used : list name) : list binding :=
-  if has_star bs then rev (expand_rev (t_has fuel g) (rev bs) (undefined bs used)) else bs.
+  if has_star bs then rev (expand_rev (t_has fuel g) (rev bs) (dedup used)) else bs.
 
 (* ------------------------------------------------------------------------------------------- *)
 (* 5. tracing.fix_reimported_names (tracing.py:396-503)                                         *)
@@ -252,23 +253,51 @@ Definition redirect1 (fuel : nat) (std : modname -> bool) (g : graph) (b : bindi
   | _ => None
   end.
 
-(* redirected aliases are inserted at the line of the first import, the rest stays in place *)
+(* redirected aliases are inserted at the line of the FIRST import statement (statements before it
+   stay in front), the rest stays in place *)
+Definition is_import (b : binding) : bool :=
+  match b with
+  | Def _ => false
+  | Assign _ => false
+  | _ => true
+  end.
+
+Fixpoint before_imports (bs : list binding) : list binding :=
+  match bs with
+  | [] => []
+  | b :: tl => if is_import b then [] else b :: before_imports tl
+  end.
+Fixpoint from_first_import (bs : list binding) : list binding :=
+  match bs with
+  | [] => []
+  | b :: tl => if is_import b then bs else from_first_import tl
+  end.
+
+Definition moved (fuel : nat) (std : modname -> bool) (g : graph) (bs : list binding) : list binding :=
+  flat_map (fun b => match redirect1 fuel std g b with Some b' => [b'] | None => [] end) bs.
+Definition stays (fuel : nat) (std : modname -> bool) (g : graph) (b : binding) : bool :=
+  match redirect1 fuel std g b with Some _ => false | None => true end.
+
 Definition fix_reimported (fuel : nat) (std : modname -> bool) (g : graph) (bs : list binding)
   : list binding :=
-  flat_map (fun b => match redirect1 fuel std g b with Some b' => [b'] | None => [] end) bs ++
-  filter (fun b => match redirect1 fuel std g b with Some _ => false | None => true end) bs.
+  before_imports bs ++ moved fuel std g bs ++ filter (stays fuel std g) (from_first_import bs).
 
 (* ------------------------------------------------------------------------------------------- *)
 (* 6. Import statements of a client and their binding environment                                *)
 
-(* from-alias: (original name, asname);  import-alias: (module, asname, head) where head is the
-   name an un-aliased import binds (first component of the dotted module name) *)
+(* from-alias: (original name, asname);  import-alias: (module, asname, head, std) where head is the
+   name an un-aliased import binds (first component of the dotted module name) and std tells whether
+   that head is in constants.PYTHON_311_STDLIB *)
 Definition falias := (name * option name)%type.
-Definition ialias := (modname * option name * name)%type.
+Definition ialias := (modname * option name * name * bool)%type.
+Definition imod (al : ialias) : modname := fst (fst (fst al)).
+Definition ias (al : ialias) : option name := snd (fst (fst al)).
+Definition ihead (al : ialias) : name := snd (fst al).
+Definition istd (al : ialias) : bool := snd al.
 
 Inductive stmt :=
 | SFrom (std : bool) (m : modname) (als : list falias)
-| SImport (std : bool) (als : list ialias).
+| SImport (als : list ialias).
 
 (* symbolic target of a local name *)
 Inductive itgt :=
@@ -285,15 +314,15 @@ Definition itgt_eqb (a b : itgt) : bool :=
   end.
 
 Definition fbound (al : falias) : name := match snd al with Some a => a | None => fst al end.
-Definition ibound (al : ialias) : name := match snd (fst al) with Some a => a | None => snd al end.
+Definition ibound (al : ialias) : name := match ias al with Some a => a | None => ihead al end.
 Definition itarget (al : ialias) : itgt :=
-  match snd (fst al) with Some _ => IMod (fst (fst al)) | None => IHead (snd al) end.
+  match ias al with Some _ => IMod (imod al) | None => IHead (ihead al) end.
 
 (* the (local name, target) pairs a statement creates, in execution order *)
 Definition stmt_binds (s : stmt) : list (name * itgt) :=
   match s with
   | SFrom _ m als => map (fun al => (fbound al, IAttr m (fst al))) als
-  | SImport _ als => map (fun al => (ibound al, itarget al)) als
+  | SImport als => map (fun al => (ibound al, itarget al)) als
   end.
 Definition all_binds (l : list stmt) : list (name * itgt) := flat_map stmt_binds l.
 
@@ -335,7 +364,7 @@ Fixpoint insert_by {X} (key : X -> list nat) (x : X) (l : list X) : list X :=
 Definition sort_by {X} (key : X -> list nat) (l : list X) : list X := fold_right (insert_by key) [] l.
 
 Definition fkey (al : falias) : list nat := fst al :: opt_key (snd al).
-Definition ikey (al : ialias) : list nat := fst (fst al) :: opt_key (snd (fst al)).
+Definition ikey (al : ialias) : list nat := imod al :: opt_key (ias al).
 
 Definition remove_unused_stmt (used : list name) (s : stmt) : list stmt :=
   match s with
@@ -343,10 +372,10 @@ Definition remove_unused_stmt (used : list name) (s : stmt) : list stmt :=
     let kept := filter (fun al => mem (fbound al) used) als in
     if length kept =? length als then [s]
     else match kept with [] => [] | _ => [SFrom std m (sort_by fkey kept)] end
-  | SImport std als =>
+  | SImport als =>
     let kept := filter (fun al => mem (ibound al) used) als in
     if length kept =? length als then [s]
-    else match kept with [] => [] | _ => [SImport std (sort_by ikey kept)] end
+    else match kept with [] => [] | _ => [SImport (sort_by ikey kept)] end
   end.
 Definition remove_unused (used : list name) (l : list stmt) : list stmt :=
   flat_map (remove_unused_stmt used) l.
@@ -356,8 +385,8 @@ Definition fnorm (al : falias) : falias :=
   match snd al with Some a => if a =? fst al then (fst al, None) else al | None => al end.
 (* `import m as a` is `as self` when the asname is the module name itself (one id space) *)
 Definition inorm (al : ialias) : ialias :=
-  match snd (fst al) with
-  | Some a => if a =? fst (fst al) then (fst (fst al), None, snd al) else al
+  match ias al with
+  | Some a => if a =? imod al then (imod al, None, ihead al, istd al) else al
   | None => al
   end.
 
@@ -368,8 +397,8 @@ Definition falias_eqb (a b : falias) : bool :=
                       | _, _ => false
                       end.
 Definition ialias_eqb (a b : ialias) : bool :=
-  (fst (fst a) =? fst (fst b)) && (snd a =? snd b) &&
-  match snd (fst a), snd (fst b) with
+  (imod a =? imod b) && (ihead a =? ihead b) && Bool.eqb (istd a) (istd b) &&
+  match ias a, ias b with
   | None, None => true
   | Some x, Some y => x =? y
   | _, _ => false
@@ -449,12 +478,12 @@ Fixpoint dup_regular_from (cur : list (name * option ialias)) (l : list stmt) : 
   | [] => []
   | SFrom std m als :: tl =>
     SFrom std m als :: dup_regular_from (map (fun al => (fbound al, None)) (rev als) ++ cur) tl
-  | SImport std als :: tl =>
+  | SImport als :: tl =>
     let '(kept, cur') := dup_regular_aliases cur als in
-    if length kept =? length als then SImport std als :: dup_regular_from cur' tl
+    if length kept =? length als then SImport als :: dup_regular_from cur' tl
     else match kept with
          | [] => dup_regular_from cur' tl
-         | _ => SImport std (sort_by ikey kept) :: dup_regular_from cur' tl
+         | _ => SImport (sort_by ikey kept) :: dup_regular_from cur' tl
          end
   end.
 Definition dup_regular (l : list stmt) : list stmt := dup_regular_from [] l.
@@ -462,9 +491,9 @@ Definition dup_regular (l : list stmt) : list stmt := dup_regular_from [] l.
 (* ---- _breakout_stacked_imports: `import a, b` -> one statement per (sorted, distinct) alias *)
 Definition breakout_stmt (s : stmt) : list stmt :=
   match s with
-  | SImport std als =>
+  | SImport als =>
     match als with
-    | _ :: _ :: _ => map (fun al => SImport std [inorm al]) (sort_by ikey (dedup_by ialias_eqb als))
+    | _ :: _ :: _ => map (fun al => SImport [inorm al]) (sort_by ikey (dedup_by ialias_eqb als))
     | _ => [s]
     end
   | _ => [s]
@@ -481,10 +510,10 @@ Definition stmt_key (s : stmt) : list nat :=
   | SFrom std m als =>
     flat_key [[if std then 0 else 1]; [1]; [1]; [S m];
               sort_nat (map fst als); sort_nat (map fbound als)]
-  | SImport std als =>
-    flat_key [[if std then 0 else 1]; [0]; [0]; [0];
-              sort_nat (map (fun al => fst (fst al)) als);
-              sort_nat (map (fun al => match snd (fst al) with Some a => a | None => fst (fst al) end) als)]
+  | SImport als =>
+    flat_key [[if forallb istd als then 0 else 1]; [0]; [0]; [0];
+              sort_nat (map imod als);
+              sort_nat (map (fun al => match ias al with Some a => a | None => imod al end) als)]
   end.
 Definition sort_stmts (l : list stmt) : list stmt :=
   match l with
@@ -496,7 +525,7 @@ Definition sort_stmts (l : list stmt) : list stmt :=
 Definition sort_aliases_stmt (s : stmt) : stmt :=
   match s with
   | SFrom std m als => SFrom std m (sort_by fkey (map fnorm als))
-  | SImport std als => SImport std (sort_by ikey (map inorm als))
+  | SImport als => SImport (sort_by ikey (map inorm als))
   end.
 Definition sort_aliases (l : list stmt) : list stmt := map sort_aliases_stmt l.
 
@@ -537,7 +566,7 @@ Fixpoint list_eqb {X} (eqb : X -> X -> bool) (a b : list X) : bool :=
 Definition stmt_eqb (a b : stmt) : bool :=
   match a, b with
   | SFrom s m als, SFrom s' m' als' => Bool.eqb s s' && (m =? m') && list_eqb falias_eqb als als'
-  | SImport s als, SImport s' als' => Bool.eqb s s' && list_eqb ialias_eqb als als'
+  | SImport als, SImport als' => list_eqb ialias_eqb als als'
   | _, _ => false
   end.
 
@@ -575,10 +604,28 @@ Definition starred_case_ok (fuel : nat) (g : graph) (c : list binding * list nam
   let '(bs, used, impl) := c in
   bindings_agree used (fix_starred fuel g bs used) impl.
 
+(* fix_reimported_names: the order in which several redirected statements are inserted at the first
+   import line is an artefact of processing.fix; it is compared only where it can matter for a name
+   that has ONE binder: the binder itself and the star imports that follow it. *)
+Fixpoint stars_after (n : name) (rbs : list binding) (acc : list modname) : list modname :=
+  match rbs with
+  | [] => acc
+  | b :: tl => if binds b n then acc
+               else stars_after n tl (match b with Star m => m :: acc | _ => acc end)
+  end.
+Definition count_binders (n : name) (bs : list binding) : nat :=
+  length (filter (fun b => binds b n) bs).
+Definition bindings_agree_upto_order (names : list name) (model impl : list binding) : bool :=
+  same_set binding_eqb model impl && (length model =? length impl) &&
+  forallb (fun n => if count_binders n model =? 1
+                    then opt_binding_eqb (last_binder (rev model) n) (last_binder (rev impl) n) &&
+                         list_eqb Nat.eqb (stars_after n (rev model) []) (stars_after n (rev impl) [])
+                    else true) names.
+
 Definition reimported_case_ok (fuel : nat) (stdl : list modname) (g : graph)
            (c : list binding * list name * list binding) : bool :=
   let '(bs, names, impl) := c in
-  bindings_agree names (iter FIX_ITER (fix_reimported fuel (fun m => mem m stdl) g) bs) impl.
+  bindings_agree_upto_order names (iter FIX_ITER (fix_reimported fuel (fun m => mem m stdl) g) bs) impl.
 
 Inductive rule_id := RUnused | RDupFrom | RDupRegular | RBreakout | RSort | RSortAliases.
 
